@@ -98,3 +98,16 @@ pub fn clip(s: &str, n: usize) -> String {
   }
   out
 }
+
+/// Per-case scratch directory: memory-backed (/dev/shm) when available — the roller and the
+/// end-to-end cases are dominated by small file operations — otherwise the system temp dir.
+/// Removed when the returned guard is dropped/closed.
+pub fn scratch_dir(prefix: &str) -> std::io::Result<tempfile::TempDir> {
+  let shm = std::path::Path::new("/dev/shm");
+  if std::env::var("VERIF_NO_SHM").is_err() && shm.is_dir() {
+    if let Ok(d) = tempfile::Builder::new().prefix(prefix).tempdir_in(shm) {
+      return Ok(d);
+    }
+  }
+  tempfile::Builder::new().prefix(prefix).tempdir()
+}
